@@ -1039,7 +1039,19 @@ func (cx *Ctx) feeTaxBounded(r *Report) {
 			if fee.Op == "call" && fee.Name == "coins" && len(fee.Args) == 1 {
 				feeAmt = simplifyField(fee.Args[0], "Amount").LooseString()
 			}
-			ok := amt.Op == "call" && strings.HasSuffix(amt.Name, "TruncateInt") && strings.Contains(amt.LooseString(), "Mul(") && strings.Contains(amt.LooseString(), feeAmt) && !strings.Contains(ts, "φ{")
+			// alternatives inside the fee itself (a fee computed on two branches) are the
+			// fee's business; the tax must not choose between values on its own
+			feeBase := fee
+			if fee.Op == "call" && fee.Name == "coins" && len(fee.Args) == 1 {
+				feeBase = fee.Args[0]
+			}
+			own := ts
+			for _, sub := range []string{feeAmt, simplifyField(feeBase, "Denom").LooseString(), feeBase.LooseString()} {
+				if sub != "" {
+					own = strings.ReplaceAll(own, sub, "‹fee›")
+				}
+			}
+			ok := amt.Op == "call" && strings.HasSuffix(amt.Name, "TruncateInt") && strings.Contains(amt.LooseString(), "Mul(") && strings.Contains(amt.LooseString(), feeAmt) && !strings.Contains(own, "φ{")
 			r.check(ok, "fee-tax-bounded", m+"|"+shortFn(ev.Fr.Fn), pos, "the tax subtracted from the fee is ⌊fee·rate⌋ and nothing else ("+trunc(ts, 120)+")", "in "+shortFn(ev.Fr.Fn)+" the amount subtracted from the fee before burning is "+trunc(ts, 200)+", not simply ⌊fee·rate⌋: it can exceed the fee (a zero or tiny fee passes validation), and Coin.Sub then aborts the handler with a negative amount")
 		})
 	}
